@@ -389,6 +389,10 @@ class W3PerDocReader(base.PerDocumentReader):
     # Columns
 
     def has_column(self, fieldname):
+        if fieldname in self._colfiles:
+            # Already open: the file may have been deleted from the storage by
+            # a later commit, but this reader can still read it
+            return True
         filename = W3Codec.column_filename(self._segment, fieldname)
         return self._storage.file_exists(filename)
 
